@@ -10,7 +10,9 @@
 //! with the model (time, allocation) but are visible to the monitors.
 mod alloc;
 mod c01;
+mod c02;
 mod c16;
+mod recdesc;
 mod sim;
 mod simdemo;
 mod wirefmt;
@@ -33,6 +35,9 @@ pub fn exec_line(line: &str) -> Option<String> {
     }
     if op == "decode" {
         return c01::exec(op, &mut t);
+    }
+    if op == "encode" || op == "escape" || op == "parse-escaped" {
+        return c02::exec(op, &mut t);
     }
     None
 }
@@ -69,6 +74,7 @@ fn main() {
                 let mut emit = |line: String| lines.push(line);
                 match prop.as_str() {
                     "C01" => c01::generate(&mut rng, &tier, &mut emit),
+                    "C02" => c02::generate(&mut rng, &tier, &mut emit),
                     "C16" => c16::generate(&mut rng, &tier, &mut emit),
                     _ => {
                         eprintln!("unknown property {}", prop);
